@@ -203,6 +203,13 @@ def main():
             z = codecs.compress(codec, a1)
             for ln in range(1, len(z), 3 if quick else 1):     # a 0-byte input is an empty archive, not a truncated one
                 cases.append(("prefix", "a1-small", "%s truncated to %d of %d bytes" % (codec, ln, len(z)), z[:ln], bss[0], None, False))
+            # the same for a two-member stream cut inside its SECOND member (member boundary on a tar entry boundary, so that what was
+            # decoded so far is a well-formed shorter archive): every length in the first 64 bytes of the member, every 3rd after that
+            for o in (512, 1536):
+                z1, z2 = codecs.compress(codec, a1[:o]), codecs.compress(codec, a1[o:])
+                for k in list(range(1, min(64, len(z2)))) + list(range(64, len(z2), 3 if quick else 1)):
+                    cases.append(("prefix", "a1-small", "%s two members (split at %d), second member truncated to %d of %d bytes" % (codec, o, k, len(z2)),
+                                  z1 + z2[:k], bss[0], None, False))
             if codec == "zstd":
                 continue       # a zstd frame without content checksum cannot detect a flipped literal byte: corruption family only for codecs with an integrity check
             for off in range(0, len(z), 3 if quick else 1):
